@@ -194,8 +194,16 @@ pub fn gen_case(rng: &mut Rng, thorough: bool) -> GenAf {
         }
     } else {
         // larger frameworks: correspondence only (the brute-force oracle skips them)
-        let n = rng.range(12, if thorough { 60 } else { 30 });
-        let g = gen_large(rng, n);
+        // mostly 12-30 (60) arguments; one in five is a long structure of 65-160 arguments (chains with a few extra
+        // attacks and two-cycles): ids above 64, long propagation chains, a big grounded class
+        let long = rng.chance(1, 5);
+        let n = if long { rng.range(65, 160) } else { rng.range(12, if thorough { 60 } else { 30 }) };
+        let g = if long {
+            let mut atts: Vec<(usize, usize)> = (0..n - 1).filter(|i| i % 17 != 16).map(|i| (i, i + 1)).collect();
+            for _ in 0..rng.below(6) { let a = rng.below(n); let b = rng.below(n); atts.push((a, b)); }
+            for _ in 0..rng.below(4) { let a = rng.below(n - 1); atts.push((a + 1, a)); }
+            GenAf { build: Build::Iccma(n, atts), recipe: "large" }
+        } else { gen_large(rng, n) };
         match to_iccma(&g) {
             Some((n, a)) => (n, a, "large"),
             None => (0, vec![], "empty"),
